@@ -370,6 +370,9 @@ class Crate:
                     self.fns[sq] = sf
                     self.synthetic[sq] = q
             elif k == 'Impl':
+                if it.get('trait'):
+                    # also the impls without methods (`impl ControlFlow for Leaf {}`: every method is the provided one)
+                    self.__dict__.setdefault('impl_pairs', set()).add((name, strip_generics(it['self_ty'].replace(' ', '')), it['trait'].replace(' ', '')))
                 for f in it['fns']:
                     if f.get('cfg_test'):
                         continue
@@ -1275,6 +1278,25 @@ class Interp:
             return bool(vals) and all(self.constructed(x, depth + 1) for x in vals)
         return False
 
+    def bool_alt(self, arms):
+        """a choice whose alternatives are all TRUE / FALSE with exactly one TRUE: the condition of that alternative (and not of the earlier ones,
+        except those that exclude it anyway: another variant of the same scrutinee)"""
+        if all(m in (TRUE, FALSE) for _, m in arms):
+            ts = [i for i, (_, m) in enumerate(arms) if m == TRUE]
+            if not ts:
+                return FALSE
+            if len(ts) == 1:
+                i = ts[0]
+                ci = arms[i][0]
+                pre = []
+                for c, _ in arms[:i]:
+                    if c[0] == 'is' and ci[0] == 'is' and c[1] == ci[1] and c[2] != ci[2]:
+                        continue
+                    pre.append(self.neg(c))
+                cs = pre + ([ci] if ci != TRUE else [])
+                return TRUE if not cs else cs[0] if len(cs) == 1 else ('and', cs)
+        return ('alt', arms)
+
     def static_match(self, pat, v, env):
         """match a pattern against a constructed value (see `constructed`): the condition (TRUE / FALSE / a choice of them) with the pattern's
         variables bound in env, or None when the pattern / value pair is not of that kind"""
@@ -1300,7 +1322,7 @@ class Interp:
             for n_ in names:
                 arms = [(('and', [c, m]) if m != TRUE else c, e2[n_]) for (c, m), e2 in zip(conds, envs) if n_ in e2 and m != FALSE]
                 env[n_] = arms[0][1] if len(arms) == 1 else ('alt', arms[:-1] + [(TRUE, arms[-1][1])])
-            return ('alt', conds + [(TRUE, FALSE)])
+            return self.bool_alt(conds + [(TRUE, FALSE)])
         if k == 'PWild':
             return TRUE
         if k == 'PIdent' and not (pat['sub'] is None and self.is_variant_ident(pat['name']) and pat['name'] not in env):
@@ -2096,8 +2118,10 @@ class Interp:
             if len(c_) == 1:
                 return c_[0]
             # a provided method of the only crate trait the type implements that has one of this name
+            pairs = self.c.__dict__.get('impl_pairs', set())
             c_ = [q for q in self.c.fns if self.c.fns[q].get('trait_default') and q.endswith('::' + m) and
-                  any(q2.startswith(f'{mod}::<{short} as {self.c.fns[q]["trait_default"]}>') for q2 in self.c.fns)]
+                  (any(q2.startswith(f'{mod}::<{short} as {self.c.fns[q]["trait_default"]}>') for q2 in self.c.fns) or
+                   any(ty_ == short and tr_.split('::')[-1].split('<')[0] == self.c.fns[q]['trait_default'] for _, ty_, tr_ in pairs))]
             return c_[0] if len(c_) == 1 else None
 
         def ok(x, depth=0):
@@ -2875,7 +2899,7 @@ class Interp:
                     return None, None
                 cs.append((c, oc))
                 vs.append((c, ov))
-            return ('alt', cs + [(TRUE, FALSE)]), ('alt', vs)
+            return self.bool_alt(cs + [(TRUE, FALSE)]), ('alt', vs)
         if v[0] == 'propagate':
             return FALSE, ('tuple', [])
         if v[0] == 'ok':
